@@ -227,11 +227,12 @@ func runC04(c *Ctx) {
 
 	c04Mutation(c)
 	c04Siblings(c)
+	c04MostSpecific(c)
 	checkUnderLock(c, underLockSpec{
 		Rule: "C04-D5", Pkgs: []string{"client"}, OwnerType: "client.Storage", Lock: "mu", AccessType: "client.Storage",
 		Fields: []string{"index", "runtimeIndex"},
 		Constructors: map[string]string{
-			"client.NewStorage":                    "constructor: the storage is not yet published",
+			"client.NewStorage":                      "constructor: the storage is not yet published",
 			"(*client.Storage).loadFromConfigLocked": "",
 		},
 		Floor: 12,
@@ -455,4 +456,125 @@ func c04Siblings(c *Ctx) {
 		}
 		r.Check(got[6] && got[8] && got[20], "C04-D4", "mac-key-lengths", p.FnPos(mk), "MAC keys handle 6-, 8- and 20-byte hardware addresses", fmt.Sprintf("MAC keys no longer handle all of 6/8/20-byte addresses: %v", got))
 	}
+}
+
+// c04MostSpecific: D6.  "The most specific CIDR wins": the subnet index is a
+// map sorted by a comparator and the lookup takes the first prefix that
+// contains the address, so (a) the comparator must put a longer prefix before
+// a shorter one whatever their addresses are, be antisymmetric, and be zero
+// only for equal prefixes; (b) the range callback must stop at the first
+// containing prefix.  The comparator is evaluated over the finite domain
+// {sign of Bits(x)-Bits(y)} x {sign of Addr(x) vs Addr(y)}.
+func c04MostSpecific(c *Ctx) {
+	p, r := c.P, c.R
+	ni := p.Fn("client.newIndex")
+	var cmpFn *ssa.Function
+	if ni != nil {
+		for _, call := range core.Calls(ni) {
+			if !strings.HasPrefix(core.CalleeKey(call.Instr.Common()), "aghalg.NewSortedMap") {
+				continue
+			}
+			v, ok := call.Instr.(ssa.Value)
+			if !ok || !strings.Contains(v.Type().String(), "netip.Prefix") {
+				continue
+			}
+			if f, _ := core.FnValue(call.Arg(0)); f != nil {
+				cmpFn = f
+			}
+		}
+	}
+	if cmpFn == nil {
+		r.Undecided("C04-D6", "subnet-comparator", "-", "the comparator of the subnet index (aghalg.NewSortedMap[netip.Prefix, ...] in client.newIndex) was not found")
+		return
+	}
+	model := core.AbsModel{
+		Project: func(op string, arg core.AbsVal) (string, bool) {
+			if arg.Kind != core.AbsParam {
+				return "", false
+			}
+			switch {
+			case strings.HasSuffix(op, "netip.Prefix).Bits"):
+				return "Bits", true
+			case strings.HasSuffix(op, "netip.Prefix).Addr"):
+				return "Addr", true
+			}
+			return "", false
+		},
+		Predicate: func(string, core.AbsVal) (string, bool) { return "", false },
+	}
+	signOf := func(v core.AbsVal) int { return v.Sign }
+	res := map[[2]int]int{}
+	bad := []string{}
+	for _, bits := range []int{-1, 0, 1} {
+		for _, addr := range []int{-1, 0, 1} {
+			f := core.AbsFacts{Rel: map[string]int{"Bits": bits, "Addr": addr}, Same: bits == 0 && addr == 0}
+			v, ok, why := core.AbsEval(cmpFn, model, f)
+			r.Eval(1)
+			if !ok || v.Kind != core.AbsInt {
+				r.Undecided("C04-D6", "subnet-comparator", p.FnPos(cmpFn), fmt.Sprintf("the comparator %s could not be evaluated for Bits %+d / Addr %+d: %s", core.FuncKey(cmpFn), bits, addr, why))
+				return
+			}
+			res[[2]int{bits, addr}] = signOf(v)
+			if bits > 0 && signOf(v) >= 0 {
+				bad = append(bad, fmt.Sprintf("x has the longer prefix (address relation %+d) but the result sign is %+d: the less specific subnet is found first", addr, signOf(v)))
+			}
+			if bits < 0 && signOf(v) <= 0 {
+				bad = append(bad, fmt.Sprintf("y has the longer prefix (address relation %+d) but the result sign is %+d: the less specific subnet is found first", addr, signOf(v)))
+			}
+			if bits == 0 && (addr == 0) != (signOf(v) == 0) {
+				bad = append(bad, fmt.Sprintf("equal prefix lengths, address relation %+d, result sign %+d: zero must mean exactly 'same subnet' (the sorted map overwrites a key it compares equal to)", addr, signOf(v)))
+			}
+		}
+	}
+	for k, v := range res {
+		if res[[2]int{-k[0], -k[1]}] != -v {
+			bad = append(bad, fmt.Sprintf("not antisymmetric for Bits %+d / Addr %+d", k[0], k[1]))
+		}
+	}
+	sort.Strings(bad)
+	r.Check(len(bad) == 0, "C04-D6", "subnet-comparator:longer-prefix-first", p.FnPos(cmpFn),
+		fmt.Sprintf("%s orders a longer prefix before a shorter one for every address relation, is antisymmetric and zero only for the same subnet (9 abstract cases)", core.FuncKey(cmpFn)),
+		fmt.Sprintf("%s does not always order the longer prefix first", core.FuncKey(cmpFn)), bad...)
+
+	// (b) the lookup stops at the first containing prefix
+	fip := p.Fn("(*client.index).findByIP")
+	var cb *ssa.Function
+	if fip != nil {
+		for _, call := range core.Calls(fip) {
+			k := core.CalleeKey(call.Instr.Common())
+			if strings.Contains(k, "aghalg.SortedMap") && strings.HasSuffix(k, ".Range") {
+				cb, _ = core.FnValue(call.Arg(len(call.Common.Args) - 1))
+			}
+		}
+	}
+	if cb == nil {
+		r.Undecided("C04-D6", "subnet-range-callback", "-", "the Range callback of (*client.index).findByIP was not found")
+		return
+	}
+	cm := core.AbsModel{
+		Project: func(string, core.AbsVal) (string, bool) { return "", false },
+		Predicate: func(op string, arg core.AbsVal) (string, bool) {
+			if strings.HasSuffix(op, "netip.Prefix).Contains") && arg.Kind == core.AbsParam && arg.Idx == 0 {
+				return "Contains", true
+			}
+			return "", false
+		},
+	}
+	okCb := true
+	var whyCb []string
+	for _, contains := range []bool{true, false} {
+		v, ok, why := core.AbsEval(cb, cm, core.AbsFacts{Pred: map[string][2]bool{"Contains": {contains, false}}})
+		r.Eval(1)
+		if !ok || v.Kind != core.AbsBool {
+			r.Undecided("C04-D6", "subnet-range-callback", p.FnPos(cb), "the Range callback could not be evaluated: "+why)
+			return
+		}
+		if v.Bool == contains { // must continue exactly when the prefix does not contain the address
+			okCb = false
+			whyCb = append(whyCb, fmt.Sprintf("prefix contains the address: %v, callback continues: %v", contains, v.Bool))
+		}
+	}
+	r.Check(okCb, "C04-D6", "subnet-range-callback:stops-at-first-containing-prefix", p.FnPos(cb),
+		"the subnet lookup stops at the first (most specific) prefix that contains the address and goes on otherwise",
+		"the subnet lookup does not stop at the first containing prefix", whyCb...)
 }
